@@ -73,6 +73,18 @@ Proof.
   - exact Hn.
 Qed.
 
+Lemma take_xy1_records pts rest :
+  Forall fits_pt pts -> pts <> [] -> not_xy_head rest ->
+  take_xy1 (xy_records (length pts) pts ++ rest) = Some (pts, rest).
+Proof.
+  intros Hf Hne Hn. pose proof (take_xy_records pts rest Hf Hne Hn) as H.
+  destruct pts as [|p0 pts]; [congruence|]. cbn [length xy_records app] in *. unfold take_xy1.
+  rewrite plen_mk, enc_points_length. cbn [firstn xy_chunk]. 
+  replace (8 <=? N.of_nat (8 * length (firstn xy_chunk (p0 :: pts)))) with true; [exact H|].
+  symmetry. apply N.leb_le. change (firstn xy_chunk (p0 :: pts)) with (p0 :: firstn (Nat.pred xy_chunk) pts).
+  cbn [length]. lia.
+Qed.
+
 (* properties *)
 Lemma take_props_records : forall ps acc rest,
   Forall prop_ok ps -> not_propattr_head rest ->
@@ -150,31 +162,33 @@ Proof.
   assert (Hne : pts <> []) by (destruct pts; [cbn [length] in Hn; lia|discriminate]).
   assert (Hend : match f16 (mkrec 33 2 (enc16 (end_code en))) with 0%Z => EFlush | 1%Z => ERound | 2%Z => EHalf | _ => EExt end = en)
     by (unfold f16; cbn [mkrec payload]; apply end_code_roundtrip).
+  assert (Hwok : width_ok (Some (mkrec 15 3 (enc32 w))) = true).
+  { unfold width_ok. rewrite f32_mk by exact Hfw. apply Z.ltb_lt. subst w. destruct sw; lia. }
   destruct en.
   - cbn [app]. destruct pts as [|q pts]; [congruence|].
     assert (Hx : forall tl, xy_records (length (q :: pts)) (q :: pts) ++ tl = mkrec 16 3 (enc_points (firstn xy_chunk (q :: pts))) :: (xy_records (length pts) (skipn xy_chunk (q :: pts)) ++ tl)) by reflexivity.
     rewrite Hx. rewrite opt1_miss by discriminate. rewrite opt1_miss by discriminate. rewrite <- Hx.
-    rewrite take_xy_records by (assumption || apply not_xy_props).
+    rewrite Hwok. rewrite take_xy1_records by (assumption || apply not_xy_props).
     rewrite take_props_records by (assumption || apply not_propattr_endel).
     unfold take_endel, endel. cbn [mkrec rtype N.eqb Pos.eqb].
     rewrite Hend. rewrite !f16_mk by assumption. rewrite f32_mk by assumption. rewrite Habs, Hsw. subst ex. reflexivity.
   - cbn [app]. destruct pts as [|q pts]; [congruence|].
     assert (Hx : forall tl, xy_records (length (q :: pts)) (q :: pts) ++ tl = mkrec 16 3 (enc_points (firstn xy_chunk (q :: pts))) :: (xy_records (length pts) (skipn xy_chunk (q :: pts)) ++ tl)) by reflexivity.
     rewrite Hx. rewrite opt1_miss by discriminate. rewrite opt1_miss by discriminate. rewrite <- Hx.
-    rewrite take_xy_records by (assumption || apply not_xy_props).
+    rewrite Hwok. rewrite take_xy1_records by (assumption || apply not_xy_props).
     rewrite take_props_records by (assumption || apply not_propattr_endel).
     unfold take_endel, endel. cbn [mkrec rtype N.eqb Pos.eqb].
     rewrite Hend. rewrite !f16_mk by assumption. rewrite f32_mk by assumption. rewrite Habs, Hsw. subst ex. reflexivity.
   - cbn [app]. destruct pts as [|q pts]; [congruence|].
     assert (Hx : forall tl, xy_records (length (q :: pts)) (q :: pts) ++ tl = mkrec 16 3 (enc_points (firstn xy_chunk (q :: pts))) :: (xy_records (length pts) (skipn xy_chunk (q :: pts)) ++ tl)) by reflexivity.
     rewrite Hx. rewrite opt1_miss by discriminate. rewrite opt1_miss by discriminate. rewrite <- Hx.
-    rewrite take_xy_records by (assumption || apply not_xy_props).
+    rewrite Hwok. rewrite take_xy1_records by (assumption || apply not_xy_props).
     rewrite take_props_records by (assumption || apply not_propattr_endel).
     unfold take_endel, endel. cbn [mkrec rtype N.eqb Pos.eqb].
     rewrite Hend. rewrite !f16_mk by assumption. rewrite f32_mk by assumption. rewrite Habs, Hsw. subst ex. reflexivity.
   - destruct Hext as [He0 He1]. destruct ex as [e0 e1]. cbn [fst snd] in *. cbn [app].
     rewrite opt1_mk by reflexivity. rewrite opt1_mk by reflexivity.
-    rewrite take_xy_records by (assumption || apply not_xy_props).
+    rewrite Hwok. rewrite take_xy1_records by (assumption || apply not_xy_props).
     rewrite take_props_records by (assumption || apply not_propattr_endel).
     unfold take_endel, endel. cbn [mkrec rtype N.eqb Pos.eqb].
     rewrite Hend. rewrite !f16_mk by assumption. rewrite !f32_mk by assumption. rewrite Habs, Hsw. reflexivity.
@@ -211,7 +225,12 @@ Proof.
 Qed.
 
 Lemma take_str_mk t s tl : no_nul s -> take_str t (mkrec t 6 (pad_even s) :: tl) = Some (s, tl).
-Proof. intros H. unfold take_str. rewrite is_rec_mk. cbn [mkrec payload]. rewrite strip_nul_pad by exact H. reflexivity. Qed.
+Proof.
+  intros H. unfold take_str. rewrite is_rec_mk. cbn [mkrec payload]. rewrite strip_nul_pad by exact H.
+  replace (no_nulb s) with true; [reflexivity|]. symmetry.
+  induction H as [|b s Hb _ IH]; [reflexivity|]. cbn [no_nulb]. rewrite IH.
+  replace (b =? 0) with false by (symmetry; apply N.eqb_neq; exact Hb). reflexivity.
+Qed.
 
 Lemma spec_ref_written r rest : ref_ok r -> spec_element (ref_records r ++ rest) = Some (ERef (canon_ref r), rest).
 Proof.
@@ -221,10 +240,15 @@ Proof.
   destruct rp as [g|].
   - destruct Hrep as (Hc & Hrw & [H2x H2y] & [H3x H3y] & Hreg & Hrect).
     destruct g as [gc gr greg [x2 y2] [x3 y3]]. cbn [g_cols g_rows g_regular g_p2 g_p3 fst snd] in *.
+    assert (Hcr : colrow_ok (mkrec 19 2 (enc16 gc ++ enc16 gr)) = true).
+    { unfold colrow_ok. cbn [mkrec payload]. rewrite d16_pair0 by (apply count16_fits; exact Hc).
+      rewrite d16_pair1 by (apply count16_fits; exact Hrw). unfold count16 in Hc, Hrw.
+      apply andb_true_intro. split; apply Z.leb_le; lia. }
+    apply count16_fits in Hc. apply count16_fits in Hrw.
     rewrite <- !app_assoc. cbn [app]. unfold spec_element. rewrite plen_mk. cbn [length N.of_nat N.eqb mkrec rtype].
     unfold spec_ref. rewrite skip_flags_id by discriminate. rewrite take_str_mk by assumption.
     rewrite take_strans_written by (assumption || (cbn; repeat split; discriminate)).
-    rewrite take1_mk by reflexivity.
+    rewrite take1_mk by reflexivity. rewrite Hcr.
     rewrite take1_mk by (rewrite enc_points_length; reflexivity).
     rewrite take_props_records by (assumption || apply not_propattr_endel).
     unfold take_endel, endel. cbn [mkrec rtype payload N.eqb Pos.eqb].
@@ -358,6 +382,20 @@ Proof.
     + rewrite app_length. cbn [length]. pose proof (elems_records_length _ He). lia.
 Qed.
 
+(* the UNITS record of a library with positive units passes the grammar's check *)
+Lemma units_written u0 u1 : unit_ok u0 -> unit_ok u1 ->
+  d64 (swap8 (enc64 u0 ++ enc64 u1)) 0 = u0 /\ d64 (swap8 (enc64 u0 ++ enc64 u1)) 1 = u1 /\
+  units_ok (mkrec 3 5 (enc64 u0 ++ enc64 u1)) = true.
+Proof.
+  intros Hu0 Hu1.
+  assert (Hd0 : d64 (swap8 (enc64 u0 ++ enc64 u1)) 0 = u0) by (apply d64_enc64; apply unit_ok_real; exact Hu0).
+  assert (Hd1 : d64 (swap8 (enc64 u0 ++ enc64 u1)) 1 = u1)
+    by (rewrite <- (app_nil_r (enc64 u1)); apply d64_enc64_1; apply unit_ok_real; exact Hu1).
+  split; [exact Hd0|]. split; [exact Hd1|].
+  unfold units_ok, real_pos. cbn [mkrec payload]. rewrite Hd0, Hd1. destruct Hu0 as [Ha0 Hb0]. destruct Hu1 as [Ha1 Hb1].
+  repeat (apply andb_true_intro; split); apply N.ltb_lt; assumption.
+Qed.
+
 Theorem spec_records_written ts l :
   (length ts = 6)%nat -> lib_ok l -> spec_records (lib_records ts l) = Some (canon_lib l).
 Proof.
@@ -367,8 +405,9 @@ Proof.
   rewrite take_str_mk by assumption.
   cbn [skip_libopt libopt mkrec rtype].
   rewrite take1_mk by reflexivity.
+  destruct (units_written u0 u1 Hu0 Hu1) as (Hd0 & Hd1 & Huok). rewrite Huok.
   rewrite spec_structures_written; try assumption.
-  - cbn [mkrec payload]. rewrite d64_enc64 by assumption. rewrite <- (app_nil_r (enc64 u1)). rewrite d64_enc64_1 by assumption. reflexivity.
+  - cbn [mkrec payload]. rewrite Hd0, Hd1. reflexivity.
   - rewrite app_length. cbn [length]. clear -Hc Hts.
     induction Hc as [|c cells Hc0 Hcs IH]; [cbn; lia|]. cbn [flat_map length]. rewrite app_length.
     rewrite cell_records_elems. cbn [app length]. lia.
